@@ -103,6 +103,19 @@ pub struct Built {
     pub labels: Vec<&'static str>,
 }
 
+impl Built {
+    /// Generator self-check: does the compiler agree with the model about validity? (labels only;
+    /// a low agreement rate means the generator needs fixing, never a verdict)
+    pub fn agreement_labels(&self, outcomes: &[String]) -> Vec<String> {
+        self.projects
+            .iter()
+            .zip(outcomes.iter())
+            .filter(|(_, o)| *o == "ok" || *o == "diagnostics")
+            .map(|(p, o)| format!("model-{}:compiler-{o}", if p.model_says_invalid() { "invalid" } else { "valid" }))
+            .collect()
+    }
+}
+
 pub fn build_init(init: &InitSeed) -> Init {
     match init {
         InitSeed::Missing => Init::Missing,
